@@ -86,6 +86,25 @@ def h_order2_call(ctx, I):
             num += 1
 
 
+def h_concrete_order2_tt(ctx):
+    """Order-2 TT-tensor on full grids, d = 2..5, for functions with pairwise
+    interactions only: with a rank that is large enough the tensor reproduces the
+    function (real code: the rounding inside add_many is not encodable for generic
+    data)."""
+    rng = np.random.default_rng(11)
+    ok = True
+    for ns in ([3, 2], [2, 3, 2], [2, 3, 2, 3], [3, 2, 2, 3], [2, 2, 2, 2, 2]):
+        d = len(ns)
+        I = np.array(list(itertools.product(*[range(k) for k in ns])))
+        g = {(a, b): rng.normal(size=(ns[a], ns[b])) for a in range(d - 1) for b in range(a + 1, d)}
+        y = np.array([sum(g[a, b][i[a], i[b]] for (a, b) in g) for i in I])
+        Y = teneva.anova(I, y, r=12, order=2, noise=0., seed=1)
+        F = teneva.full(Y)
+        want = y.reshape(ns)
+        ok = ok and F.shape == tuple(ns) and bool(np.linalg.norm(F - want) <= 1e-8 * np.linalg.norm(want))
+    ctx.claim('order2_tt_reproduces_pairwise_functions_on_full_grids', bool(ok))
+
+
 def h_additive_full_grid(ctx, ns, r):
     """An additive function sampled on the full grid is reproduced exactly."""
     d = len(ns)
@@ -176,6 +195,7 @@ def instances(tier):
         out.append({'func': 'h_order2_call', 'params': {'I': [list(i) for i in sets[name]]}})
     for ns in ([[2, 2], [2, 3], [2, 2, 2]] if quick else [[2, 2], [2, 3], [2, 2, 2], [3, 3], [2, 3, 2]]):
         out.append({'func': 'h_additive_full_grid', 'params': {'ns': ns, 'r': 2}})
+    out.append({'func': 'h_concrete_order2_tt', 'params': {}, 'opts': {'concrete_only': True}})
     for m, n, d in ([(2, 2, 2)] if quick else [(2, 2, 2), (3, 2, 2), (3, 3, 2), (3, 2, 3)]):
         # the ridge matrix A^T A + lamb I is positive definite for lamb > 0; its determinant is
         # treated as a generic (non-zero) divisor instead of asking the solver to prove definiteness
